@@ -22,7 +22,8 @@ TABLES = load_tables()
 EXCLUDED = re.compile(r"&[#\w]+;|<\s*.+?\s*>")
 
 # Characters on which python's and the regex crate's \w, \s and . agree (and whose class the Lean model knows).
-WORDY = ["\u00e9", "\u00df", "\u0416", "\u4e2d", "\u0663", "\u1e13", "\u0250"]      # é ß Ж 中 ٣ ḓ ɐ
+# é ß Ж 中 ٣ ḓ ɐ, and the characters that case-fold to ASCII letters (ſ K-Kelvin) or have special casing (İ ı Å-Angstrom)
+WORDY = ["\u00e9", "\u00df", "\u0416", "\u4e2d", "\u0663", "\u1e13", "\u0250", "\u017f", "\u212a", "\u0130", "\u0131", "\u212b"]
 SPACEY = [" ", "\u00a0", "\u0085", "\u3000", "\u2003", "\u2028"]
 OTHER = ["\u20ac", "\U0001F600", "\u2192", "\u00ab", "\u2200", "\u202a"]               # € 😀 → « ∀ LRE
 TOKENS = (["<", ">", "&", ";", "#", "/", "=", "\"", " ", "  ", "\n", "\t", "\r", "\x0b", "\x0c", "a", "e", "o", "u", "b", "z", "A", "E", "Z", "Q",
